@@ -135,6 +135,31 @@ specs = {
         ("setget", S.setget_suite, S.falsify_setget,
          "148-operation alphabet: set x {int 0/-1/2^63-1, str empty/x/NULL, bool 0/1/2, json {} / {a,c} / [1] / 1 / malformed / NULL / duplicate} x replace, get x 4 types, del, on names {a, c, empty, NULL}; all single ops, 6000 (quick) / all 21904 (thorough) pairs, random longer; same programs inside builder callbacks on the jwt_t", False),
     ])'''),
+
+ "c07": dict(doc="C07 -- arbitrary JWK/JWKS input: no crash, and a well-formed keyring comes back.",
+   mods=["Jwt.Props.C07"], files=["Jwt/Props/C07.lean"], gen=1,
+   level="Lean theorems for every JSON value and every key-material oracle: set error and no items for non-JSON, exactly one item without a keys member, exactly n items in document order for a keys array, none for a non-array keys; every item is flagged with a message or is a usable key (known kty, PEM or non-empty oct bytes), by case analysis over the member handling of all four key types with Option-tracked json_string_value; preserved by every load. Memory safety/UB/leaks of the compiled code are witnessed by ASan/UBSan/LSan runs: every member x 9 JSON types/absent/truncated/extended/flipped for every key type, non-JWK documents, keys of every type, 0-50 elements, mutated text, all five entry points incl. embedded NUL.",
+   assume=["PARTIAL: memory safety, UB and leaks of compiled libjwt/jansson/OpenSSL on these inputs are witnessed by sanitizers, not proved", "EVP_PKEY_fromdata / PEM export acceptance of key material is a parameter (KeyOracle), answered in the harness by an independent OpenSSL caller"],
+   body='''    F.run_suites(ctx, model_ok, deep, [
+        ("jwk-shapes", S.jwk_shapes_suite, S.falsify_jwk_shapes,
+         "per key type (oct, RSA, P-256, Ed25519; more in thorough) private and public: each member absent / null / int / real / bool / array / object / empty / non-base64 / 1 char / truncated / extended / first char flipped (+ random pairs in thorough); 30 non-JWK documents; keys of 11 types and 0-50 elements; 300 (quick) / 3000 (thorough) byte-mutated texts; entry points load/strn/create/fromfile/fromfp with good, bad, NUL-containing and set input", False),
+    ])'''),
+ "c08": dict(doc="C08 -- JWK import preserves the key and its metadata.",
+   mods=["Jwt.Props.C08"], files=["Jwt/Props/C08.lean"], gen=1,
+   level="Lean theorems: oct import = base64url-decoding of k (bytes, 8*len bits, private, no error) via the C11 round trip; alg/kid/use as functions of the members; frame theorem: setting any member outside the 17 names the library reads, to any JSON value, leaves the imported item unchanged (all key types). Numeric identity of RSA/EC/OKP material goes through EVP_PKEY_fromdata/PEM and is sampled: fresh keys of every type, private and public, minimal and zero-padded EC integers, optional and foreign members; imported PEM compared through an independent OpenSSL caller (EVP_PKEY_eq + cross sign/verify).",
+   assume=["PARTIAL: component-wise identity of asymmetric key material is sampled (provider code), not proved"],
+   body='''    F.run_suites(ctx, model_ok, deep, [
+        ("jwk-import", S.jwk_import_suite, S.falsify_jwk_import,
+         "RSA 2048 (+3072/4096 thorough), RSA-PSS, P-256/384/521, secp256k1, Ed25519, Ed448, oct 1..512 bytes; private/public x alg attribute x padded/minimal x random kid/use/key_ops x foreign and unknown members; item fields vs what the JWK states; PEM vs the generating key", False),
+    ])'''),
+ "c16": dict(doc="C16 -- a keyring is an ordered list of keys under every sequence of operations.",
+   mods=["Jwt.Props.C16"], files=["Jwt/Props/C16.lean"], gen=0,
+   level="Lean theorems at the list level: loads append in document order, get/count, find = first exact kid match, free removes exactly the indexed item or reports 0, free_bad removes exactly the errored items keeping order, free_all, error_any, and by induction over any operation history every item stays well-formed. The pointer level (ll.h) is tied by exhaustive operation sequences under ASan/LSan with probes (count, error_any, first/last/one-past item) after every step, judged by an independent Python list.",
+   assume=["PARTIAL: absence of use-after-free and leaks in the intrusive list code is witnessed by ASan/LSan on all explored sequences; the heap-level refinement of ll.h is not machine-checked"],
+   body='''    F.run_suites(ctx, model_ok, deep, [
+        ("keyring", S.keyring_suite, S.falsify_keyring,
+         "all sequences to length 2 + 700 of length 3 (quick) / all to 3 + 6000 of length 4 (thorough) over {load good, load bad, load mixed-3 with duplicate kid, load non-JSON, free 0/1/last/99, free_bad, free_all, find k1/kbad/absent/empty, error_clear} + random sequences up to 200 ops; 5 probes after every step", False),
+    ])'''),
 }
 for k, sp in specs.items():
     sp["mod0"] = sp["mods"][0]
